@@ -826,6 +826,9 @@ class CFG:
                 if fr is not None:
                     return fr
             if isinstance(s, ast.Return) and s.value is not None:
+                ds = self._return_as_yield_from(s)
+                if ds is not None:
+                    return self._block(ds, ctxs)
                 fr = self._tail_inline(s, ctxs)
                 if fr is not None:
                     return fr
@@ -1066,22 +1069,61 @@ class CFG:
         return mod.const_exprs.get(name) or self.fi.module.const_exprs.get(name)
 
     def _handler_types(self, h: ast.ExceptHandler):
-        """handler_types() with module-level tuples of exception classes (`except _REFUSALS as e`) expanded."""
+        """handler_types() with constant tuples of exception classes expanded: module-level names (`except _REFUSALS`),
+        class attributes (`except self.UPDATE_ERRORS` / `except Cls.ERRORS`) and concatenations of those."""
         t = h.type
-        if isinstance(t, ast.Name):
-            ce = self._const_expr(t.id)
-            if isinstance(ce, ast.Tuple):
-                return [exc_name_of(x) for x in ce.elts]
-        if isinstance(t, ast.Tuple):
-            out = []
-            for x in t.elts:
-                ce = self._const_expr(x.id) if isinstance(x, ast.Name) else None
-                if isinstance(ce, ast.Tuple):
-                    out.extend(exc_name_of(y) for y in ce.elts)
-                else:
-                    out.append(exc_name_of(x))
+        if t is None:
+            return handler_types(h)
+        out = self._exc_tuple(t, None, 0)
+        if out is not None:
             return out
         return handler_types(h)
+
+    def _exc_tuple(self, e: ast.AST, cls, depth: int):
+        """Names of the exception classes a constant expression denotes, None if it is not understood."""
+        if depth > 6:
+            return None
+        if isinstance(e, ast.Tuple):
+            out = []
+            for x in e.elts:
+                sub = self._exc_tuple(x, cls, depth + 1)
+                if sub is None:
+                    return None
+                out.extend(sub)
+            return out
+        if isinstance(e, ast.BinOp) and isinstance(e.op, ast.Add):
+            l_ = self._exc_tuple(e.left, cls, depth + 1)
+            r_ = self._exc_tuple(e.right, cls, depth + 1)
+            return None if l_ is None or r_ is None else l_ + r_
+        if isinstance(e, ast.Name):
+            if cls is not None:
+                for c in cls.mro:
+                    if e.id in c.attrs:
+                        return self._exc_tuple(c.attrs[e.id], cls, depth + 1)
+            ce = self._const_expr(e.id)
+            if isinstance(ce, (ast.Tuple, ast.BinOp)):
+                return self._exc_tuple(ce, cls, depth + 1)
+            return [exc_name_of(e)]
+        if isinstance(e, ast.Attribute) and isinstance(e.value, ast.Name):
+            owner = None
+            if e.value.id in ("self", "cls"):
+                owner = self.fi.cls
+            elif self.inliner is not None:
+                try:
+                    k_, o_ = self.inliner.P.resolve_dotted(self._resolve_fi().module, e.value.id, self._resolve_fi())
+                except Exception:
+                    k_, o_ = None, None
+                if k_ == "class":
+                    owner = o_
+            if owner is not None:
+                for c in owner.mro:
+                    if e.attr in c.attrs:
+                        v = c.attrs[e.attr]
+                        if isinstance(v, (ast.Tuple, ast.BinOp, ast.Name)):
+                            return self._exc_tuple(v, owner, depth + 1)
+                        return None
+            return [exc_name_of(e)]
+        return None
 
     def _table_functions(self, v: ast.AST) -> Optional[list]:
         """`TABLE[key]` / `TABLE.get(key)` where TABLE is a module- or class-level dict display whose values all name
@@ -1323,6 +1365,36 @@ class CFG:
         self._connect(ictx.f_rets, f_end)
         head = self._seq(frs + [Frag(start, [])])
         return head.entry, [(t_end, "n")], [(f_end, "n")]
+
+    def _return_as_yield_from(self, s: ast.Return):
+        """A function that used to be a generator and now hands out the generator of a helper unknown to the reference
+        tree (`return _Scan(self, flt).naive()` / `return self._scan(flt)`): its callers iterate over the same items,
+        so to the rules it is `yield from <that call>`."""
+        call = s.value
+        if self._inline_stack or not isinstance(call, ast.Call) or self.inliner is None or self.inliner.reference is None:
+            return None
+        if any(isinstance(x, (ast.Yield, ast.YieldFrom)) for x in _walk_own(self.fi.node)):
+            return None
+        P = self.inliner.P
+        m = None
+        f = call.func
+        try:
+            if isinstance(f, ast.Attribute) and isinstance(f.value, ast.Call) and dotted(f.value.func):
+                k_, o_ = P.resolve_dotted(self.fi.module, dotted(f.value.func), self.fi)
+                if k_ == "class" and o_.qualname not in self.inliner.reference:
+                    m = P.lookup_method(o_, f.attr)
+            else:
+                yf = ast.copy_location(ast.YieldFrom(value=call), call)
+                m = self.inliner.target(self._resolve_fi(), yf, self._inline_stack, "yieldfrom")
+        except Exception:
+            return None
+        if m is None or isinstance(getattr(m, "node", None), ast.Lambda) or not self.inliner.is_new(m):
+            return None
+        if not any(isinstance(x, (ast.Yield, ast.YieldFrom)) for x in _walk_own(m.node)):
+            return None
+        yf = ast.copy_location(ast.Expr(value=ast.copy_location(ast.YieldFrom(value=call), call)), s)
+        ret = ast.copy_location(ast.Return(value=None), s)
+        return [yf, ret]
 
     def _tail_inline(self, s: ast.Return, ctxs) -> Optional[Frag]:
         """``return helper(...)``: the helper's own returns become returns of the caller."""
